@@ -102,6 +102,13 @@ func (e *Env) RunSearch(res *Result, s *Search) {
 						nh := make([]int, len(h)+1)
 						copy(nh, h)
 						nh[len(h)] = op
+						if s.Workers == 1 {
+							var pts []Point
+							for _, o := range nh {
+								pts = append(pts, Point{Kind: "op", N: s.NumOps, Chosen: o})
+							}
+							e.mark(s.Name, pts)
+						}
 						r := s.Run(nh)
 						if r.Skip {
 							continue
